@@ -2,6 +2,7 @@ package topics
 
 import (
 	"context"
+	"github.com/PowerDNS/lightningstream/utils/verifhook"
 	"io"
 	"sync"
 )
@@ -34,6 +35,7 @@ func (s *Subscription[T]) Channel() <-chan T {
 // the next value is available, or until the context is closed.
 // It returns an error if the context or channel was closed.
 func (s *Subscription[T]) Next(ctx context.Context) (value T, err error) {
+	verifhook.Yield("sub.next.recv", "")
 	var zero T
 	select {
 	case <-ctx.Done():
@@ -49,6 +51,7 @@ func (s *Subscription[T]) Next(ctx context.Context) (value T, err error) {
 // Close terminates this subscription. The Topic will close the channel.
 // Close can safely be called multiple times, even from different goroutines.
 func (s *Subscription[T]) Close() {
+	verifhook.Yield("sub.close.lock", "")
 	s.mu.Lock()
 	defer s.mu.Unlock()
 
